@@ -2,8 +2,36 @@
 #include "vbase.h"
 #include "vstr.h"
 #include "gen_types.h"
-struct Message { vstr m_level; };
+typedef long time_t;
+#ifndef KEYS_CAP
+#define KEYS_CAP 2
+#define BK_CAP 2
+#endif
+#define ALL_CAP (KEYS_CAP * BK_CAP)
+#define SYN 0xaa
+struct Message { vstr m_level; _Bool grant_incl, grant_excl; _Bool passive, write, available, circuit_part, circuit_full, name_part, name_full; unsigned char dst; time_t lastChange, lastUpdate; };
 struct MessageMap { int dummy; };
+/* findAll: all definitions of the name map; result list */
+struct Message g_all[ALL_CAP];
+struct bucket { struct Message* e[BK_CAP]; size_t n; _Bool dup; };   /* the definitions stored under one name key (never empty); dup: key of a multiply stored instance */
+struct bucket g_keys[KEYS_CAP]; size_t g_keys_n;
+struct msgout { struct Message* e[ALL_CAP]; size_t n; };
+static inline void msgout_push(struct msgout* o, struct Message* m) { __CPROVER_assert(o->n < ALL_CAP, "[C16] a definition is reported at most once"); o->e[o->n] = m; o->n = o->n + 1; }
+/* Message::hasLevel by its contract (discharged in run hasLevel): the verdict depends on the definition, the level list and includeEmpty only;
+   a definition admitted without includeEmpty is admitted with it */
+const vstr* g_levels_arg; unsigned g_level_checks;
+static inline _Bool env_hasLevel(const struct Message* m, const vstr* levels, _Bool includeEmpty) {
+  __CPROVER_assert(levels == g_levels_arg, "[C16] the level filter is evaluated with the level list of the client"); g_level_checks = g_level_checks + 1;
+  return includeEmpty ? m->grant_incl : m->grant_excl; }
+static inline _Bool env_given(const vstr* s) { return s->n != 0; }
+static inline _Bool env_circuit_matches(const struct Message* m, _Bool complete) { return complete ? m->circuit_full : m->circuit_part; }
+static inline _Bool env_name_matches(const struct Message* m, _Bool complete) { return complete ? m->name_full : m->name_part; }
+static inline _Bool Msg_isPassive(const struct Message* m) { return m->passive; }
+static inline _Bool Msg_isWrite(const struct Message* m) { return m->write; }
+static inline _Bool Msg_isAvailable(const struct Message* m) { return m->available; }
+static inline unsigned char Msg_getDstAddress(const struct Message* m) { return m->dst; }
+static inline time_t Msg_getLastChangeTime(const struct Message* m) { return m->lastChange; }
+static inline time_t Msg_getLastUpdateTime(const struct Message* m) { return m->lastUpdate; }
 struct Message g_found[3]; _Bool g_present[3]; unsigned g_lookups;
 static inline _Bool env_circuit_empty(const vstr* c) { return c->n == 0; }
 /* the map of messages by name: key 1 = circuit + name, key 2 = name only; some available message of that name, or none */
@@ -54,4 +82,50 @@ void h_find_by_name(void) {
   }
   if (g_present[1] && spec_granted(&g_found[1].m_level, &levels)) { __CPROVER_assert(r == &g_found[1], "[C16] a message the client is granted is found"); }
   if (g_present[1] && !spec_granted(&g_found[1].m_level, &levels) && !(circuit.n == 0 && g_present[2])) { __CPROVER_assert(r == NULL, "[C16] a message of a level the client is not granted is not handed out"); CANARY("denied by level"); }
+}
+
+/* listing on behalf of a client (find, HTTP /data, MQTT, KNX list building): a definition is listed iff every filter admits it; the level filter is
+   the exact-token rule; a definition without level is listed when includeEmptyLevel is set or the client has no levels at all */
+struct Message nondet_message(void);
+void h_find_all(void) {
+  struct MessageMap mm; vstr circuit = nondet_vstr(), name = nondet_vstr(), levels = nondet_vstr();
+  __CPROVER_assume(vstr_valid(&circuit) && vstr_valid(&name) && vstr_valid(&levels));
+  g_keys_n = nondet_size(); __CPROVER_assume(g_keys_n <= KEYS_CAP);
+  for (size_t k = 0; k < KEYS_CAP; k++) { g_keys[k].n = nondet_size(); __CPROVER_assume(g_keys[k].n >= 1 && g_keys[k].n <= BK_CAP); g_keys[k].dup = nondet_bool();
+    for (size_t j = 0; j < BK_CAP; j++) g_keys[k].e[j] = &g_all[k * BK_CAP + j]; }
+  for (size_t k = 0; k < ALL_CAP; k++) { g_all[k] = nondet_message(); __CPROVER_assume(!g_all[k].grant_excl || g_all[k].grant_incl); }
+  _Bool complete = nondet_bool(), wr = nondet_bool(), ww = nondet_bool(), wp = nondet_bool(), incl = nondet_bool(), avail = nondet_bool(), chg = nondet_bool();
+  time_t since = nondet_long(), until = nondet_long(); __CPROVER_assume(since >= 0 && until >= 0);
+  struct msgout out; out.n = 0; g_levels_arg = &levels; g_level_checks = 0;
+  MM_findAll(&mm, &circuit, &name, &levels, complete, wr, ww, wp, incl, avail, since, until, chg, &out);
+  size_t kk = nondet_size(), kj = nondet_size(); __CPROVER_assume(kk < g_keys_n && kj < g_keys[kk].n);
+  const struct Message* m = g_keys[kk].e[kj];
+  _Bool star = levels.n == 1 && levels.d[0] == '*';
+  _Bool level_ok = star ? 1 : (incl ? m->grant_incl : m->grant_excl);
+  _Bool circuit_ok = circuit.n == 0 || (complete ? m->circuit_full : m->circuit_part);
+  _Bool name_ok = name.n == 0 || (complete ? m->name_full : m->name_part);
+  _Bool dir_ok = m->passive ? wp : m->write ? ww : wr;
+  time_t last = chg ? m->lastChange : m->lastUpdate;
+  _Bool time_ok = (since == 0 && until == 0) || (m->dst != SYN && !(since != 0 && last < since) && !(until != 0 && last >= until));
+  _Bool expect = !g_keys[kk].dup && level_ok && circuit_ok && name_ok && dir_ok && time_ok && (!avail || m->available);
+  size_t cnt = 0; for (size_t j = 0; j < ALL_CAP; j++) { if (j < out.n && out.e[j] == m) cnt = cnt + 1; }
+  __CPROVER_assert(level_ok || cnt == 0, "[C16] a definition of a level the client is not granted is never listed");
+  __CPROVER_assert(cnt == (expect ? 1 : 0), "[C16] a definition is listed exactly once iff the level, circuit, name, direction, time and availability filters all admit it (whatever else is stored under the same name)");
+  size_t a = nondet_size(), b = nondet_size();
+  if (a < b && b < out.n) { __CPROVER_assert(out.e[a] < out.e[b], "[C16] the list keeps the order of the map"); }
+  if (expect && !star && g_level_checks >= 2) { CANARY("listed by level"); }
+  if (!level_ok && out.n == 1 && kj == 1 && out.e[0] == g_keys[kk].e[0]) { CANARY("first of a name listed, second denied"); }
+}
+
+/* Message::hasLevel = contract used by find_all */
+void h_hasLevel(void) {
+  struct Message m; vstr levels = nondet_vstr(); m.m_level = nondet_vstr(); _Bool incl = nondet_bool();
+  __CPROVER_assume(vstr_valid(&levels) && vstr_valid(&m.m_level));
+  for (size_t j = 0; j < VSTR_CAP; j++) { if (j < levels.n) __CPROVER_assume(levels.d[j] != 0); if (j < m.m_level.n) __CPROVER_assume(m.m_level.d[j] != ';' && m.m_level.d[j] != 0); }
+  _Bool r = Message_hasLevel(&m, &levels, incl);
+  _Bool expect = m.m_level.n == 0 ? (incl || levels.n == 0) : spec_granted(&m.m_level, &levels);
+  __CPROVER_assert(r == expect, "[C16] a definition with a level is admitted iff the list is * or contains exactly that level; one without level is admitted when includeEmpty is set or the client has no levels");
+  __CPROVER_assert(!(r && !incl) || Message_hasLevel(&m, &levels, 1), "[C16] includeEmpty only widens");
+  if (r && m.m_level.n == 2 && levels.n == 5) { CANARY("granted by token"); }
+  if (!r && m.m_level.n == 0) { CANARY("definition without level hidden"); }
 }
